@@ -258,25 +258,45 @@ pub struct QueryEnvInner {
     pub query_data: Arc<Data>,
     pub http_headers: Mutex<http::HeaderMap>,
     pub introspection_mode: IntrospectionMode,
-    pub errors: Mutex<Vec<ServerError>>,
 }
 
 #[doc(hidden)]
 #[derive(Clone)]
-pub struct QueryEnv(Arc<QueryEnvInner>);
+pub struct QueryEnv {
+    inner: Arc<QueryEnvInner>,
+    /// Field errors captured during one execution (a query, a mutation or a
+    /// single subscription event).
+    pub errors: Arc<Mutex<Vec<ServerError>>>,
+}
 
 impl Deref for QueryEnv {
     type Target = QueryEnvInner;
 
     fn deref(&self) -> &Self::Target {
-        &self.0
+        &self.inner
     }
 }
 
 impl QueryEnv {
     #[doc(hidden)]
     pub fn new(inner: QueryEnvInner) -> QueryEnv {
-        QueryEnv(Arc::new(inner))
+        QueryEnv {
+            inner: Arc::new(inner),
+            errors: Default::default(),
+        }
+    }
+
+    /// The same request environment with an error list of its own.
+    ///
+    /// Every subscription event is executed on its own: events of different
+    /// root fields can be resolved concurrently and each response must carry
+    /// the errors of its own event only.
+    #[doc(hidden)]
+    pub fn with_separate_errors(&self) -> QueryEnv {
+        QueryEnv {
+            inner: self.inner.clone(),
+            errors: Default::default(),
+        }
     }
 
     #[doc(hidden)]
